@@ -109,6 +109,12 @@ func c07sLines() []string {
 		upd(m("captain", m("spec", m("inline", actor)))), upd(m("captain", nil)), upd(m("captain", m("state", m("node", "nowhere")))), upd(m("captain", m("state", m("node", "do")))), upd(m("captain", m("state", m("node", "do", "bs", m("?op", 7))))),
 		upd(m("timers", nil)), upd(m("timers", m("state", nil))), upd(m("timers", m("state", m("node", "start", "bs", m("timers", 7))))), upd(m("timers", m("state", m("node", "start", "bs", m("timers", m("t", nil)))))),
 		upd(m("timers", m("state", m("node", "start", "bs", m("timers", m("t", m("Id", "t", "At", "not a time", "Msg", nil))))))), upd(m("timers", m("spec", m("inline", actor)))),
+		// a timers state of which one entry is fine and another is of the wrong type; specification sources that point nowhere
+		upd(m("timers", m("state", m("node", "start", "bs", m("timers", m("a", m("Id", "a", "At", "2031-01-01T00:00:00Z", "Msg", m()), "t", 7)))))),
+		upd(m("timers", m("state", m("node", "start", "bs", m("timers", m("a", m("Id", "a", "At", "2031-01-01T00:00:00Z", "Msg", m()), "t", m("Id", "t", "At", 7))))))),
+		upd(m("timers", m("state", m("node", "start", "bs", m("timers", m("t", m("Id", "t", "At", "2031-01-01T00:00:00Z", "Msg", m()), "u", "text")))))),
+		upd(m("x", m("spec", m("url", "file:///nonexistent/spec.yaml")))), upd(m("x", m("spec", m("url", "file:///dev/null")))), upd(m("x", m("spec", m("url", "nonsense://x")))), upd(m("x", m("spec", m("url", 7)))),
+		upd(m("x", m("spec", m("source", "")))), upd(m("x", m("spec", m("name", "")))),
 		`{"to":"captain","delete":null}`, `{"to":"captain","delete":7}`, `{"to":"captain","delete":"a"}`, `{"to":"captain","delete":[7,null,"nobody"]}`, `{"to":"captain","delete":["a","a"]}`, `{"to":"captain","delete":["captain"]}`, `{"to":"captain","delete":["timers"]}`,
 		j(m("to", "captain", "update", m("x", m("spec", m("inline", actor))), "delete", []interface{}{"x"})),
 		// timers requests
@@ -149,7 +155,7 @@ func C07sio(c *vh.Ctx) {
 	var seconds []string
 	if c.Quick() {
 		for _, l := range lines {
-			if strings.Contains(l, `"do":"`) && !strings.Contains(l, `"to":"a"`) || strings.Contains(l, `"node":"act"`) || strings.Contains(l, `"cancelTimer":"t"`) {
+			if strings.Contains(l, `"do":"`) && !strings.Contains(l, `"to":"a"`) || strings.Contains(l, `"node":"act"`) || strings.Contains(l, `"cancelTimer":"t"`) || strings.Contains(l, `"cancelTimer":"nobody"`) {
 				seconds = append(seconds, l)
 			}
 		}
